@@ -145,7 +145,7 @@ AggOf(f, vs, isAgg) ==
 
 NoWin == [fk |-> "none", lo |-> -Inf, hi |-> Inf]
 \* a context in which no aggregation may occur (arguments of aggregations)
-ScalarCtx == [part |-> <<>>, i |-> 0, win |-> NoWin, dirs |-> <<>>, uniq |-> FALSE, nsm |-> TRUE, scalar |-> TRUE]
+ScalarCtx == [part |-> <<>>, i |-> 0, win |-> NoWin, dirs |-> <<>>, uniq |-> FALSE, nsm |-> TRUE, scalar |-> TRUE, osort |-> FALSE]
 
 RECURSIVE Eval(_, _, _, _)
 RECURSIVE EvalCase(_, _, _, _)
@@ -171,6 +171,7 @@ Eval(e, fr, r, c) ==
     [] e.t = "agg"  ->
          IF c.scalar THEN Undef
          ELSE IF c.i > 0 /\ OrderSensitive(e.f, c.win) /\ ~c.uniq THEN Undef
+         ELSE IF e.f \in {"rank", "rank_dense"} /\ c.osort THEN Undef
          ELSE IF e.f = "row_number" THEN IntV(c.i)
          ELSE IF e.f = "rank" THEN
               IntV(1 + Cardinality({ j \in Idx(c.part) :
@@ -254,7 +255,7 @@ TakeGroups(groups, pos, lo, hi) ==     \* pos = position of first row of Head(gr
 \* schema : [t |-> <<"k","a","b">>, ...]
 InitState(ndb) ==
   [ frame |-> <<>>, W |-> [d \in 1 .. ndb |-> {}], dirs |-> <<>>, status |-> "init",
-    known |-> TRUE, win |-> NoWin, grouped |-> FALSE, loose |-> FALSE, inputs |-> <<>> ]
+    known |-> TRUE, win |-> NoWin, grouped |-> FALSE, loose |-> FALSE, inputs |-> <<>>, osort |-> FALSE ]
 
 Err(st)   == [st EXCEPT !.status = "error"]
 \* outcome of a scope check that failed
@@ -266,7 +267,10 @@ Lift(st, F(_)) == [d \in Idx(st.W) |-> UNION { F(w) : w \in st.W[d] }]
 
 CtxOf(st, w, i) ==
   [ part |-> w.rows, i |-> i, win |-> st.win, dirs |-> st.dirs,
-    uniq |-> KeysUnique(w.rows, st.dirs, Nsm(w)), nsm |-> Nsm(w), scalar |-> FALSE ]
+    uniq |-> KeysUnique(w.rows, st.dirs, Nsm(w)), nsm |-> Nsm(w), scalar |-> FALSE,
+    \* a sort was in effect outside the enclosing group and none inside yet:
+    \* whether ranking functions see it is not documented
+    osort |-> st.osort /\ st.dirs = <<>> ]
 
 ExprsScope(fr, es) ==
   IF \E i \in Idx(es) : ScopeOf(fr, es[i]) = "keyclash" THEN "keyclash"
@@ -449,7 +453,7 @@ Group(st, s, dbs, schema) ==
       partsOf == [j \in Idx(dw) |-> PartitionRows([i \in Idx(dw[j].w.rows) |-> prow(dw[j].w.rows[i])], nk)]
       nsOf == FlattenSeq([j \in Idx(dw) |-> [p \in Idx(partsOf[j]) |-> dw[j].w.ns]])
       flat == FlattenSeq(partsOf)
-      inner0 == [ st EXCEPT !.frame = fr0, !.grouped = TRUE, !.dirs = <<>>,
+      inner0 == [ st EXCEPT !.frame = fr0, !.grouped = TRUE, !.dirs = <<>>, !.osort = (st.dirs # <<>>),
                             !.W = [m \in Idx(flat) |-> { [ns |-> nsOf[m], rows |-> flat[m]] }] ]
       inner1 == RunPipe(inner0, s.pipe, dbs, schema)
       off(j) == SumLens(partsOf, j - 1)
@@ -463,9 +467,11 @@ Group(st, s, dbs, schema) ==
   ELSE IF inner1.status # "ok" THEN [st EXCEPT !.status = inner1.status]
   ELSE [ st EXCEPT
       !.frame = [m \in Idx(inner1.frame) |-> [inner1.frame[m] EXCEPT !.key = FALSE]],
+      !.osort = st.osort,
       !.known = TRUE,
       !.dirs = <<>>,
-      !.loose = inner1.loose,
+      \* a key without a specified value makes the partitioning unspecified
+      !.loose = inner1.loose \/ (\E m \in Idx(flat) : \E i \in Idx(flat[m]) : \E q \in 1 .. nk : IsUndef(flat[m][i].v[q])),
       !.W = [d \in Idx(st.W) |-> UNION { { clear(x) : x \in res(j) } : j \in { j \in Idx(dw) : dw[j].d = d } }] ]
 
 Window(st, s, dbs, schema) ==
